@@ -96,3 +96,58 @@ def lc_doc(d):
     for b in d.bundles:
         out[b.identifier.uri if b.identifier is not None else None] = lc_cont(b)
     return out
+
+
+# ---- the strict content as the tree the spec readers (JsonSpec / XmlSpec) produce
+def content_value(v):
+    if isinstance(v, bool):
+        return ["bool", "true" if v else "false"]
+    if isinstance(v, int):
+        return ["int", str(v)]
+    if isinstance(v, float):
+        return ["float", repr(v)]
+    if isinstance(v, str):
+        return ["str", v]
+    if isinstance(v, datetime.datetime):
+        tz = tzmin(v)
+        return ["time", v.replace(tzinfo=None).isoformat(), "none" if tz is None else str(int(tz))]
+    if isinstance(v, QualifiedName):
+        return ["qn", v.uri]
+    if isinstance(v, Identifier):
+        return ["id", v.uri]
+    if isinstance(v, M.Literal):
+        dt = v.datatype
+        return ["lit", v.value, dt.uri if isinstance(dt, Identifier) else "none",
+                ["some", v.langtag] if v.langtag is not None else "none"]
+    return ["other", repr(v)]
+
+
+def content_rec(r):
+    ident = r.identifier
+    return ["rec", r.get_type().uri, ident.uri if ident is not None else "none",
+            [[a.uri, content_value(v)] for a, v in r.attributes]]
+
+
+def content_doc(d):
+    out = ["content", ["bundle", ""] + [content_rec(r) for r in d.get_records()]]
+    for b in d.bundles:
+        out.append(["bundle", b.identifier.uri if b.identifier is not None else "none"] + [content_rec(r) for r in b.get_records()])
+    return out
+
+
+def canon_content(c):
+    """Order-insensitive normal form of a content tree."""
+    from harness.sexp import dumps
+    if not isinstance(c, list) or not c or c[0] != "content":
+        return c
+    bundles = []
+    for b in c[1:]:
+        recs = []
+        for r in b[2:]:
+            attrs = []
+            for a in sorted(r[3], key=dumps):          # attribute-value pairs form a set
+                if not attrs or attrs[-1] != a:
+                    attrs.append(a)
+            recs.append(["rec", r[1], r[2], attrs])
+        bundles.append(["bundle", b[1]] + sorted(recs, key=dumps))
+    return ["content"] + sorted(bundles, key=dumps)
